@@ -900,7 +900,7 @@ def run_item(item) -> common.Result:
     lines = ex.lines
     # depth-1 states of all first requests: this sub-tree is expanded only if no earlier sub-tree starts in the same state
     # (keys are pure functions of (tree, protocols, request); a worker remembers them across the items of one group)
-    gk = (ex.tkey, item["dv"], item["cv"], tuple(lines))
+    gk = (ex.tkey, common.h64((item["sdk0"], item["hand"])), item["dv"], item["cv"], tuple(lines))  # trees may share the Kconfig text
     memo = _DEPTH1.setdefault(gk, {})
     if len(_DEPTH1) > 64:
         _DEPTH1.clear()
